@@ -21,6 +21,7 @@ separately (unit()).
     - p anywhere on edge i (ends included): a step against nu enters the half-plane of
       that edge:  nu.n_i > 0  (at a vertex this is demanded for both adjacent edges, which is
       exactly "a small step along nu leaves, a small step against it enters" at a convex corner);
+      in the corner zones this is stated as two lemmas that together imply it (see polygon_claims);
     - p in the corner zone of vertex v (within `tau` of it on either adjacent edge): nu lies in
       the closed normal cone of the two adjacent edges, nu = a*n_i + b*n_j with a, b >= 0,
       written with 2x2 determinants (Cramer) instead of a linear solve.
@@ -107,10 +108,28 @@ def polygon_claims(corners, p, nu, L, tau=2e-4, tol=1e-6):
         # open edge interior: THE outward unit normal of the edge (with nu.nu == 1 claimed separately)
         out.append(("edge_interior_is_outward_edge_normal(e%d)" % i, [], inner[i],
                     L.And(L.eq(dot(nu, e), 0, tol), L.lt(dot(nu, gp), 0))))
-        # anywhere on the closed edge: a step against nu enters the open half-plane of this edge
-        # (one claim per orientation: the outward side is the right-hand one iff counter-clockwise)
-        out.append(("step_against_normal_enters(e%d)@ccw" % i, [ccw], on[i], L.gt(dot(nu, r), 0)))
-        out.append(("step_against_normal_enters(e%d)@cw" % i, [cw], on[i], L.lt(dot(nu, r), 0)))
+        # anywhere on the closed edge: a step against nu enters the open half-plane of this edge, y := nu.n_i > 0
+        # (n_i = +r_i iff counter-clockwise: one claim per orientation).  Stated per zone of the edge; in the two
+        # corner zones as two lemmas with x := nu.n_k, k the other edge of that corner:
+        #   (a) x > 0 or y > 0          (b) x*|e_i| == y*|e_k| or y > 0
+        # which together give y > 0 (if not y > 0: x > 0 by (a), y = x*|e_i|/|e_k| > 0 by (b); see
+        # vertex_lemma_closure()).  Neither lemma demands more than y > 0; (b) merely offers the solver the
+        # equality that holds when nu bisects the corner, which it decides far more easily than the strict
+        # Cauchy-Schwarz inequality hidden in y > 0.
+        for oname, ocond, sgn in (("ccw", ccw, 1), ("cw", cw, -1)):
+            y = sgn * dot(nu, r)
+            out.append(("step_against_normal_enters(e%d,interior)@%s" % (i, oname), [ocond], inner[i], L.gt(y, 0)))
+            for zname, zprem, k in (("start_zone", near_start[i], (i - 1) % m), ("end_zone", near_end[i], (i + 1) % m)):
+                ek, rk = fr[k][1], fr[k][2]
+                x = sgn * dot(nu, rk)
+                li, lk = L.sqrt(dot(e, e)), L.sqrt(dot(ek, ek))
+                nm = "step_against_normal_enters(e%d,%s)@%s" % (i, zname, oname)
+                if L.symbolic:
+                    out.append((nm + ":an_adjacent_edge_is_entered", [ocond], zprem, L.Or(L.gt(x, 0), L.gt(y, 0))))
+                    out.append((nm + ":bisects_or_enters", [ocond], zprem, L.Or(L.eq(x * li, y * lk, tol), L.gt(y, 0))))
+                else:  # float replay: a counterexample to either lemma is a counterexample to y > 0 itself
+                    out.append((nm + ":an_adjacent_edge_is_entered", [ocond], zprem, L.gt(y, 0)))
+                    out.append((nm + ":bisects_or_enters", [ocond], zprem, L.gt(y, 0)))
         # corner zone of the vertex v where edge i ends and edge j starts: nu in the normal cone
         # N(v) = {nu : nu.(x - v) <= 0 for all x in the polygon} = {nu.(-e_i) <= 0, nu.e_j <= 0} (convexity)
         j = (i + 1) % m
@@ -118,6 +137,15 @@ def polygon_claims(corners, p, nu, L, tau=2e-4, tol=1e-6):
         out.append(("corner_zone_in_normal_cone(v%d)" % j, [], L.Or(near_end[i], near_start[j]),
                     L.And(L.ge(dot(nu, e), 0), L.le(dot(nu, ej), 0))))
     return out
+
+
+def vertex_lemma_closure(L):
+    """the elementary step that turns lemmas (a), (b) of the corner zones into y > 0, over arbitrary reals"""
+    if not L.symbolic:
+        return True
+    import z3
+    x, y, li, lk = z3.Reals("lemma_x lemma_y lemma_li lemma_lk")
+    return z3.Implies(z3.And(z3.Or(x > 0, y > 0), z3.Or(x * li == y * lk, y > 0), li > 0, lk > 0), y > 0)
 
 
 def edge_point_premises(m, i, t, L, tau=2e-4):
@@ -129,7 +157,9 @@ def edge_point_premises(m, i, t, L, tau=2e-4):
     out = {}
     for j in range(m):
         out["edge_interior_is_outward_edge_normal(e%d)" % j] = L.And(L.lt(tau, t), L.lt(t, 1 - tau)) if j == i else False
-        out["step_against_normal_enters(e%d)" % j] = True if j == i else (L.eq(t, 1) if j == nxt else (L.eq(t, 0) if j == prv else False))
+        out["step_against_normal_enters(e%d,interior)" % j] = out["edge_interior_is_outward_edge_normal(e%d)" % j]
+        out["step_against_normal_enters(e%d,start_zone)" % j] = L.le(t, tau) if j == i else (L.eq(t, 1) if j == nxt else False)
+        out["step_against_normal_enters(e%d,end_zone)" % j] = L.ge(t, 1 - tau) if j == i else (L.eq(t, 0) if j == prv else False)
         # vertex j = start of edge j = end of edge j-1
         out["corner_zone_in_normal_cone(v%d)" % j] = L.ge(t, 1 - tau) if j == nxt else (L.le(t, tau) if j == i else False)
     return out
